@@ -19,8 +19,10 @@ import (
 	"fmt"
 	"math/big"
 	"os"
+	"reflect"
 	"strings"
 	"time"
+	"unsafe"
 
 	"github.com/meshplus/bitxhub-core/governance"
 	"github.com/meshplus/bitxhub-kit/types"
@@ -29,7 +31,6 @@ import (
 	"github.com/meshplus/bitxhub/internal/model/events"
 	"github.com/meshplus/bitxhub/verifharness/clx"
 	"github.com/meshplus/bitxhub/verifharness/hx"
-	ledger2 "github.com/meshplus/eth-kit/ledger"
 )
 
 type opIn struct {
@@ -237,34 +238,94 @@ func runHistory(line []byte) (interface{}, error) {
 type execIn struct {
 	KH  int `json:"kh"`
 	Ops []struct {
-		Op   string `json:"op"`
-		N    int    `json:"n"`
-		Bad  int    `json:"bad"`
-		K    uint64 `json:"k"`
-		M    int    `json:"m"`    // interchain (IBTP) transactions in the block
-		MBad int    `json:"mbad"` // of them: with a wrong index (rejected)
+		Op     string `json:"op"`
+		N      int    `json:"n"`
+		Bad    int    `json:"bad"`
+		K      uint64 `json:"k"`
+		PTx    int    `json:"ptx"` // what the DELIVERED header already carries: 0 absent, 1 garbage, 2 the head block's value, 3 the right value
+		PRc    int    `json:"prc"`
+		PSt    int    `json:"pst"`
+		PPar   int    `json:"ppar"`
+		PBloom int    `json:"pbloom"`
+		M      int    `json:"m"`    // interchain (IBTP) transactions in the block
+		MBad   int    `json:"mbad"` // of them: with a wrong index (rejected)
 	} `json:"ops"`
 }
 
-// heightShim makes hx.Chain.ExecBlock (which numbers the block Height()+1 and drains the executor's
-// event channel) deliver a block with a chosen number: only the harness's view of the chain height is
-// shimmed for the duration of the call; the executor keeps its own reference to the real ledger.
-type heightShim struct {
-	ledger2.ChainLedger
-	h uint64
+// deliver hands a block to the REAL executor exactly as the ordering layer does (ExecuteBlock with a
+// CommitEvent) and waits for the executed event.  hx.Chain.ExecBlock always builds an empty header
+// numbered head+1; here the caller decides the number (re-delivery) and what the delivered header
+// already carries (pre-filled roots / parent / bloom, as for blocks fetched by the state syncer).
+// The executed event is read from hx.Chain's own subscription channel (unexported field, so through
+// its address): every event must be taken out of it or the executor's feed blocks.
+func blockCh(c *hx.Chain) chan events.ExecutedEvent {
+	f := reflect.ValueOf(c).Elem().FieldByName("blockCh")
+	return reflect.NewAt(f.Type(), unsafe.Pointer(f.UnsafeAddr())).Elem().Interface().(chan events.ExecutedEvent)
 }
 
-func (s heightShim) GetChainMeta() *pb.ChainMeta {
-	m := s.ChainLedger.GetChainMeta()
-	m.Height = s.h
-	return m
+// pre: what the delivered header carries besides version/number/timestamp.  Per field: 0 absent,
+// 1 garbage, 2 the value of the current head block, 3 the RIGHT value (tx root, parent hash only)
+type prefill struct {
+	Tx, Rc, St, Par, Bloom int
 }
 
-func execAt(c *hx.Chain, number uint64, txs []pb.Transaction) *events.ExecutedEvent {
-	real := c.Ledger
-	c.Ledger = &ledger.Ledger{ChainLedger: heightShim{real.ChainLedger, number - 1}, StateLedger: real.StateLedger}
-	defer func() { c.Ledger = real }()
-	return c.ExecBlock(txs, true, 20*time.Second)
+func deliver(c *hx.Chain, number uint64, txs []pb.Transaction, pf prefill, salt int) *events.ExecutedEvent {
+	c.NextTime += 1_000_000_000
+	hdr := &pb.BlockHeader{Version: []byte("1.0.0"), Number: number, Timestamp: c.NextTime}
+	var head *pb.BlockHeader
+	if b, err := c.Ledger.GetBlock(c.Ledger.GetChainMeta().Height, false); err == nil {
+		head = b.BlockHeader
+	}
+	pick := func(mode int, tag string, ofHead func(*pb.BlockHeader) *types.Hash, right *types.Hash) *types.Hash {
+		switch mode {
+		case 1:
+			return clx.FakeRoot("garbage-"+tag, salt)
+		case 2:
+			if head != nil {
+				return ofHead(head)
+			}
+			return clx.FakeRoot("garbage-"+tag, salt)
+		case 3:
+			return right
+		}
+		return nil
+	}
+	var txh []*types.Hash
+	for _, tx := range txs {
+		txh = append(txh, tx.GetHash())
+	}
+	var parent *types.Hash
+	if b, err := c.Ledger.GetBlock(number-1, false); err == nil {
+		parent = b.BlockHash
+	}
+	hdr.TxRoot = pick(pf.Tx, "tx", func(h *pb.BlockHeader) *types.Hash { return h.TxRoot }, clx.MerkleRoot(txh))
+	hdr.ReceiptRoot = pick(pf.Rc, "rc", func(h *pb.BlockHeader) *types.Hash { return h.ReceiptRoot }, nil)
+	hdr.StateRoot = pick(pf.St, "st", func(h *pb.BlockHeader) *types.Hash { return h.StateRoot }, nil)
+	hdr.ParentHash = pick(pf.Par, "par", func(h *pb.BlockHeader) *types.Hash { return h.ParentHash }, parent)
+	if pf.Bloom != 0 {
+		bl := types.Bloom{}
+		bl[salt%len(bl)] = 0xff
+		hdr.Bloom = &bl
+	}
+	// a re-delivered block whose header hash equals the stored block's is "the same block" for the executor
+	// (rollbackBlocks: "does not need to be repeated") and is ignored without an event; the histories
+	// are about DIFFERENT blocks, so such a pre-filled header gets another state root
+	if old, err := c.Ledger.GetBlock(number, false); err == nil && old.BlockHash.String() == hdr.Hash().String() {
+		hdr.StateRoot = clx.FakeRoot("not-the-same-block", salt)
+	}
+	block := &pb.Block{BlockHeader: hdr, Transactions: &pb.Transactions{Transactions: txs}}
+	local := make([]bool, len(txs))
+	for i := range local {
+		local[i] = true
+	}
+	ch := blockCh(c)
+	c.Exec.ExecuteBlock(&pb.CommitEvent{Block: block, LocalList: local})
+	select {
+	case ev := <-ch:
+		return &ev
+	case <-time.After(20 * time.Second):
+		return nil
+	}
 }
 
 func execPass(h execIn, t *clx.Tables, observe bool, uh, ut []*types.Hash) (out histOut, madeB, madeT []*types.Hash, err error) {
@@ -432,12 +493,7 @@ func execPass(h execIn, t *clx.Tables, observe bool, uh, ut []*types.Hash) (out 
 				}
 			}
 			txs := mkTxs(i, o.N, o.Bad, o.M, o.MBad, i+1) // receivers / proofs depend on the op: a re-delivered block differs
-			var ev *events.ExecutedEvent
-			if o.Op == "y" {
-				ev = execAt(c, target, txs)
-			} else {
-				ev = c.ExecBlock(txs, true, 20*time.Second)
-			}
+			ev := deliver(c, target, txs, prefill{o.PTx, o.PRc, o.PSt, o.PPar, o.PBloom}, i+1)
 			if ev == nil || c.Height() != target {
 				code = 8
 				break
